@@ -127,6 +127,21 @@ func VerifC03_CrashRecovery() {
 	m := &needle.Needle{Id: 9}
 	_, rerr := v2.readNeedle(m, nil)
 	rt.Assert(rt.And(rerr == nil, rt.BytesEq(m.Data, n.Data)), "reopened-volume-serves-new-write")
+	// ... and the new record must not show up under an old id (an index entry that survived the
+	// recovery although its data did not would now point at the new record)
+	for id := NeedleId(1); id <= 2; id++ {
+		o := &needle.Needle{Id: id}
+		if _, oerr := v2.readNeedle(o, nil); oerr == nil {
+			rt.Assert(o.Id == id, "old-id-never-serves-a-record-written-later")
+			served := false
+			for i := range ops {
+				if ops[i].id == id && ops[i].isWrite {
+					served = rt.Or(served, rt.BytesEq(o.Data, ops[i].data))
+				}
+			}
+			rt.Assert(served, "old-id-still-serves-only-bytes-written-for-it")
+		}
+	}
 }
 
 func verifReadIdx(path string) []byte {
